@@ -240,9 +240,12 @@ impl<T: Types> FlushWorker<T> {
             return Ok(());
         }
 
+        // A closed file is forgotten only after it has been synced
+        // successfully; if the sync fails it is synced again by the next
+        // flush.
         while files.len() > 1 {
-            let f = files.remove(0);
-            f.f.sync_data()?;
+            files[0].f.sync_data()?;
+            files.remove(0);
         }
 
         // The second last and before are all closed,
